@@ -151,6 +151,15 @@ theorem C15_level_canonical (n : Nat) (fields out : List (Key × Val))
     ∀ f rs, (f, Val.dict rs) ∈ out → CanonicalRules rs :=
   expandFields_level n fields out hnd hfin h
 
+/-- the hypotheses of `C15_level_canonical` are met by a field mapping with all three kinds of rewriting, nested -/
+example :
+    let fields : List (Key × Val) :=
+      [(.s "a", .dict [(.s "anyof type", .seq false [.str "integer", .str "string"]), (.s "validator", .str "f")]),
+       (.s "b", .dict [(.s "type", .str "dict"), (.s "valueschema", .dict [(.s "allow unknown", .bool true)])])]
+    (expandLogical (fields.map (fun kv => match kv.2 with
+      | .dict rs => (kv.1, Val.dict (normalizeNames rs)) | _ => kv))).2 = false ∧
+    (expandFields 3 fields).isSome = true := by decide
+
 /-- old and new name in one rule set: refused (RuntimeError in the code) -/
 theorem C15_deprecated_conflict (c d : Val) :
     renameRules [(.s "keyschema", c), (.s "keysrules", d)] = none := by rfl
